@@ -81,14 +81,24 @@ class Probe:
         self.lenient = False
         self.opaque_log = []
         self.opaque_calls = set()  # fn keys left uninterpreted: a call yields Opq(expr=("call", key, args))
-        self.flags = flag_tables(facts)
-        self.flagmask = 0
-        for tab in self.flags.values():
-            for v in tab.values():
-                self.flagmask |= v
+        self._flags = None
         self.cur = []  # stack of functions being evaluated
         self.frames = []  # (fn, self value, argument values) of the calls being evaluated
         self.invoked = set()  # keys of the crate functions evaluated so far
+
+    @property
+    def flags(self):
+        if self._flags is None:
+            self._flags = flag_tables(self.f)
+        return self._flags
+
+    @property
+    def flagmask(self):
+        m = 0
+        for tab in self.flags.values():
+            for v in tab.values():
+                m |= v
+        return m
 
     # ------------------------------------------------------------------ helpers
     def const(self, name):
@@ -500,6 +510,10 @@ class Probe:
             return []
         if segs[-2:] in (["Rc", "new"], ["Box", "new"], ["Arc", "new"]) and len(args) == 1:
             return args[0]
+        if segs[-2:] == ["iter", "once"] and len(args) == 1:
+            return [args[0]]
+        if segs[-2:] == ["iter", "empty"] and not args:
+            return []
         if segs[-2:] == ["Vec", "with_capacity"] and len(args) == 1:
             return []
         if segs[-2:] == ["String", "from"] and len(args) == 1:
@@ -654,6 +668,35 @@ class Probe:
                 return self.invoke(fn, recv, [self.ev(a, env) for a in e["args"]])
         if m in ("into", "try_into") and not e["args"]:
             return self.convert(recv, m)
+        if isinstance(recv, bool) and m in ("then_some", "then") and len(e["args"]) == 1:
+            if m == "then_some":
+                v_ = self.ev(e["args"][0], env)
+                return ("some", v_) if recv else None
+            return ("some", self.apply(self.ev(e["args"][0], env), [])) if recv else None
+        if (recv is None or (isinstance(recv, tuple) and recv and recv[0] == "some")) and m in ("into_iter", "iter") and not e["args"]:
+            return [] if recv is None else [recv[1]]
+        if isinstance(recv, list) and m == "chain" and len(e["args"]) == 1:
+            other = self.ev(e["args"][0], env)
+            if other is None or (isinstance(other, tuple) and other and other[0] == "some"):
+                other = [] if other is None else [other[1]]
+            if isinstance(other, str):
+                other = list(other)
+            if not isinstance(other, list):
+                raise NoEval("chain with %r" % (other,))
+            return recv + other
+        if isinstance(recv, list) and m == "flat_map" and len(e["args"]) == 1:
+            fv = self.ev(e["args"][0], env)
+            out = []
+            for x in recv:
+                r_ = self.apply(fv, [x])
+                if r_ is None or (isinstance(r_, tuple) and r_ and r_[0] == "some"):
+                    r_ = [] if r_ is None else [r_[1]]
+                if isinstance(r_, str):
+                    r_ = list(r_)
+                if not isinstance(r_, list):
+                    raise NoEval("flat_map yields %r" % (r_,))
+                out += r_
+            return out
         if m == "to_string" and not e["args"]:
             if isinstance(recv, str):
                 return recv
